@@ -14,6 +14,7 @@ import (
 	"sort"
 	"strings"
 	"sync"
+	"unsafe"
 )
 
 type opKind int
@@ -67,6 +68,7 @@ type Outcome struct {
 	Blocked    []string // who was blocked on what at a deadlock
 	NPoints    int
 	Goroutines int
+	Accesses   int64 // instrumented plain-memory accesses checked for conflicts
 }
 
 type Sched struct {
@@ -83,6 +85,11 @@ type Sched struct {
 	mutexN  int
 
 	noExplore bool
+
+	// conflict detection (race.go)
+	acc      map[unsafe.Pointer]*accRec
+	accesses int64
+	raceSeen map[string]bool
 
 	// Inline: run goroutines spawned with a tag in this set to completion at spawn
 	// (fork-join-inline policy for the pub fan-out in UI-level harnesses).
@@ -143,6 +150,7 @@ func Run(prefix []int, horizon int, inline map[string]bool, body func()) *Outcom
 		panic(fmt.Sprintf("verifrt: replay prefix longer than execution (%d of %d consumed)", s.pos, len(s.prefix)))
 	}
 	s.out.Goroutines = len(s.gs)
+	s.out.Accesses = s.accesses
 	return s.out
 }
 
@@ -153,6 +161,7 @@ func (s *Sched) newG(parent *G, tag string) *G {
 	} else {
 		parent.spawned++
 		g.Name = fmt.Sprintf("%s/%s%d", parent.Name, tag, parent.spawned)
+		parent.vc[parent.ID]++ // the go statement publishes everything the parent did before it
 		for k, v := range parent.vc {
 			g.vc[k] = v
 		}
